@@ -1087,6 +1087,8 @@ def entry_cases(rep, rng, quick):
     cases = []
     for i, e in enumerate(r.cases):
         cases.append({"id": "ent-%04d" % i, "family": "entries-exported", "S": e["S"], "opts": F.opts(mv=("rust", "glam")[i % 2], bmv=(i % 3 == 0))})
+        if i % 4 == 1:
+            cases[-1]["S"] = dict(e["S"], decor=["interpolate_vin"])
     cases.append({"id": "ent-case-clash", "family": "entries-exported", "S": {"structs": [], "globals": [], "consts": [], "overrides": [], "functions": [],
                   "entries": [{"name": "main", "stage": "fragment", "params": [], "body": [], "wg": []}, {"name": "MAIN", "stage": "compute", "params": [], "body": [], "wg": ["1"]}]}, "opts": F.opts()})
     v4 = {"k": "vec", "n": 4, "s": "f32"}
